@@ -6,6 +6,7 @@
 mod corpus;
 mod guard;
 mod legs;
+mod model;
 mod mutate;
 mod refcodec;
 mod report;
@@ -177,6 +178,20 @@ fn main() {
             match &replay_value {
                 Some(v) => legs::c19::replay(v),
                 None => legs::c19::run(seed, args.thorough(), shards),
+            }
+        }
+        "c02" => {
+            guard::start_watchdog("c02", std::time::Duration::from_secs(300));
+            match &replay_value {
+                Some(v) => legs::dhcpconf::replay_c02(v),
+                None => legs::dhcpconf::run_c02(seed, args.thorough(), shards),
+            }
+        }
+        "c11" => {
+            guard::start_watchdog("c11", std::time::Duration::from_secs(120));
+            match &replay_value {
+                Some(v) => legs::dhcpconf::replay_c11(v),
+                None => legs::dhcpconf::run_c11(seed, args.thorough(), shards),
             }
         }
         "consts" => {
